@@ -9,6 +9,7 @@
 import NutsModel.C07.Net
 import NutsModel.C15.Authn
 import NutsModel.C15.Streams
+import NutsModel.C15.Outbound
 import NutsModel.Facts.C15
 import NutsProofs.Lemmas.C15
 open Nuts.Proto Nuts Nuts.Proto.L Nuts.C15.L
@@ -896,5 +897,305 @@ def exE : InEnv := ⟨.tls, exAuthEnv, fun d => some d, fun d => if d = "did:nut
 example : (runEvs exE [] [.open_ ⟨0, ["P1"], ["did:nuts:v"], some ["v.example"], "p1"⟩, .open_ ⟨1, ["P1"], [], some ["x.example"], "p2"⟩,
     .open_ ⟨2, ["P1"], ["did:nuts:v"], some ["x.example"], "p2"⟩, .open_ ⟨3, ["P1"], ["did:nuts:v"], some ["v.example"], "p2"⟩]).map
     (fun c => (c.peer.authenticated, c.streams.map (·.sid))) = [(true, [0, 3]), (false, [1])] := by decide
+
+
+/-! ### Deepening round 3: how the identity on a connection comes about for OUTBOUND connections
+    (grpc/connection_manager.go connect / openOutboundStreams / openOutboundStream, connection.go verifyOrSetPeerID / setPeer /
+    registerStream / disconnect). The node dials a contact with an EXPECTED node DID; the invariant over all server answers:
+    the connection's DID stays the dialled one and is marked authenticated only by a covering certificate. -/
+
+/-- the certificate `cert` is valid for the host of the NutsComm endpoint the DID `d` resolves to -/
+def CertCovers (E : InEnv) (d : String) (cert : Option (List String)) : Prop :=
+  ∃ dns ep host, cert = some dns ∧ E.resolve d = some ep ∧ E.auth.parseHost ep = some host ∧
+    E.auth.verifyHostname dns host = true
+
+/-- the connection manager's `authenticate` with the TLS authenticator, for ANY peer value passed in (on an outbound connection
+    it is the connection's current peer): no error for a claimed DID means authenticated as that DID by a covering certificate -/
+theorem cmAuthenticate_tls_ok (e : AuthEnv) (claimed : String) (peer : Peer) (i : AuthIn) (hne : claimed ≠ "")
+    (h : (cmAuthenticate .tls e claimed peer i).2 = false) :
+    (cmAuthenticate .tls e claimed peer i).1 = { peer with did := claimed, authenticated := true } ∧
+    ∃ dns ep host, i.cert = some dns ∧ i.endpoint = some ep ∧ e.parseHost ep = some host ∧ e.verifyHostname dns host = true := by
+  unfold cmAuthenticate at h ⊢
+  have hc : (claimed == "") = false := by simpa using hne
+  simp only [hc, Bool.false_eq_true, if_false] at h ⊢
+  by_cases hok : ((authenticateWith .tls e claimed peer i).2 == "ok") = true
+  · simp only [hok, if_true] at h ⊢
+    have hok' : (authenticate e claimed peer i).2 = "ok" := by simpa [authenticateWith] using hok
+    refine ⟨?_, (authn_sound e claimed peer i).1.mp hok'⟩
+    simp only [authenticateWith]
+    exact (authn_sound e claimed peer i).2.1 hok'
+  · simp [hok] at h
+
+/-- what holds of an outbound connection dialled for the expected DID `x` at every point of its set-up -/
+def OutOK (E : InEnv) (x : String) (c : Conn) : Prop :=
+  c.peer.did = x ∧
+  (c.peer.authenticated = true → x ≠ "" ∧ CertCovers E x c.cert) ∧
+  ∀ s ∈ c.streams, s.peer.did = x ∧ s.claimed = x ∧ s.peer.authenticated = c.peer.authenticated ∧
+    (x ≠ "" → s.peer.authenticated = true ∧ CertCovers E x s.auth.cert)
+
+theorem verifyOrSetPeerID_same (c : Conn) (id : String) :
+    (verifyOrSetPeerID c id).1.peer = c.peer ∧ (verifyOrSetPeerID c id).1.cert = c.cert ∧
+    (verifyOrSetPeerID c id).1.streams = c.streams := by
+  unfold verifyOrSetPeerID
+  split <;> simp
+
+theorem registerOut_ok (E : InEnv) (x : String) (c : Conn) (r : StreamRec) (hc : OutOK E x c)
+    (hr : r.peer.did = x ∧ r.claimed = x ∧ r.peer.authenticated = c.peer.authenticated ∧
+      (x ≠ "" → r.peer.authenticated = true ∧ CertCovers E x r.auth.cert)) :
+    OutOK E x (registerOut c r).1 := by
+  unfold registerOut
+  split
+  · exact hc
+  · refine ⟨hc.1, hc.2.1, ?_⟩
+    intro s hs
+    rcases List.mem_append.mp hs with hs | hs
+    · exact hc.2.2 s hs
+    · have : s = r := by simpa using hs
+      subst this
+      exact hr
+
+theorem openOutboundStream_ok (E : InEnv) (hk : E.kind = .tls) (x : String) (c : Conn) (s : OutStream)
+    (hc : OutOK E x c) : OutOK E x (openOutboundStream E c s).1 := by
+  unfold openOutboundStream
+  split
+  · exact hc
+  split
+  · exact hc
+  split
+  · exact hc
+  split
+  · rename_i pid srv _
+    obtain ⟨hp, hce, hst⟩ := verifyOrSetPeerID_same c pid
+    have hc1 : OutOK E x (verifyOrSetPeerID c pid).1 := by
+      unfold OutOK
+      rw [hp, hce, hst]
+      exact hc
+    split
+    · exact hc1
+    · simp only []
+      split
+      · rename_i hd
+        have hxne : x ≠ "" := by
+          have : (verifyOrSetPeerID c pid).1.peer.did ≠ "" := by simpa using hd
+          rw [hc1.1] at this; exact this
+        split
+        · exact hc1
+        split
+        · exact hc1
+        · rename_i hsrv0 hsrv
+          have hsrv' : srv = x := by
+            have : srv = (verifyOrSetPeerID c pid).1.peer.did := by simpa using hsrv
+            rw [this, hc1.1]
+          subst hsrv'
+          split
+          · exact hc1
+          · rename_i ha
+            have ha' : (cmAuthenticate .tls E.auth srv (verifyOrSetPeerID c pid).1.peer (outAuthIn E srv s)).2 = false := by
+              rw [← hk]; simpa using ha
+            obtain ⟨hp1, dns, ep, host, h1, h2, h3, h4⟩ := cmAuthenticate_tls_ok E.auth srv _ _ hxne ha'
+            rw [hk]
+            rw [hp1]
+            have hcov : CertCovers E srv s.cert := ⟨dns, ep, host, h1, h2, h3, h4⟩
+            apply registerOut_ok
+            · refine ⟨rfl, fun _ => ⟨hxne, hcov⟩, ?_⟩
+              intro t ht
+              have := hc1.2.2 t ht
+              exact ⟨this.1, this.2.1, (this.2.2.2 hxne).1, this.2.2.2⟩
+            · exact ⟨rfl, rfl, rfl, fun _ => ⟨rfl, hcov⟩⟩
+      · rename_i hd
+        have hx : x = "" := by
+          have : (verifyOrSetPeerID c pid).1.peer.did = "" := by simpa using hd
+          rw [hc1.1] at this; exact this
+        apply registerOut_ok
+        · exact ⟨hc1.1, fun ha => absurd hx (hc1.2.1 ha).1, hc1.2.2⟩
+        · refine ⟨hc1.1, hx.symm, rfl, fun h => absurd hx h⟩
+  · exact hc
+
+theorem openOutboundStreams_ok (E : InEnv) (hk : E.kind = .tls) (x : String) (ss : List OutStream) :
+    ∀ (c : Conn) (n : Nat), OutOK E x c → OutOK E x (openOutboundStreams E c ss n).1 := by
+  induction ss with
+  | nil => intro c n h; exact h
+  | cons s rest ih =>
+    intro c n h
+    have hs := openOutboundStream_ok E hk x c s h
+    unfold openOutboundStreams
+    split
+    · exact hs
+    · exact ih _ _ hs
+    · exact ih _ _ hs
+
+theorem dialled_ok (E : InEnv) (x : String) : OutOK E x (dialled x) :=
+  ⟨rfl, fun h => by simp [dialled] at h, fun s hs => by simp [dialled] at hs⟩
+
+/-- **C15, clause 1, outbound connections.** Whatever the dialled server answers on whatever streams (any number of protocols,
+    any headers, any certificates, any failures): the identity of the connection stays the DID this node dialled; it is marked
+    authenticated only if that DID is non-empty and the certificate now on the connection covers the NutsComm host of it; and
+    every stream registered on it carries that identity, proved by the certificate of ITS OWN set-up. -/
+theorem outbound_connection_identity_is_dialled_and_proved (E : InEnv) (hk : E.kind = .tls) (x : String)
+    (ss : List OutStream) :
+    let c := (openOutboundStreams E (dialled x) ss 0).1
+    c.peer.did = x ∧
+    (c.peer.authenticated = true → x ≠ "" ∧ CertCovers E x c.cert) ∧
+    ∀ s ∈ c.streams, s.peer.did = x ∧ s.claimed = x ∧ s.peer.authenticated = c.peer.authenticated ∧
+      (x ≠ "" → s.peer.authenticated = true ∧ CertCovers E x s.auth.cert) :=
+  openOutboundStreams_ok E hk x ss _ _ (dialled_ok E x)
+
+/-- a bootstrap connection (no expected DID) is never authenticated, whatever DID the server announces -/
+theorem bootstrap_connection_never_authenticated (E : InEnv) (hk : E.kind = .tls) (ss : List OutStream) :
+    (openOutboundStreams E (dialled "") ss 0).1.peer.authenticated = false ∧
+    (openOutboundStreams E (dialled "") ss 0).1.peer.did = "" := by
+  have h := openOutboundStreams_ok E hk "" ss _ 0 (dialled_ok E "")
+  refine ⟨?_, h.1⟩
+  cases ha : (openOutboundStreams E (dialled "") ss 0).1.peer.authenticated with
+  | false => rfl
+  | true => exact absurd rfl (h.2.1 ha).1
+
+/-- **C15, end to end (dial -> payload release).** If the node answers a message handled with the identity of an outbound
+    connection with the payload of a PAL-bearing transaction, then the DID it DIALLED is on the list it decrypts, and the
+    connection's certificate and the certificate of every stream on it cover the NutsComm host of that DID. -/
+theorem outbound_stream_to_release_sound (E : InEnv) (hk : E.kind = .tls) (x : String) (ss : List OutStream)
+    (cfg : Cfg) (env : Env) (n : Node) (key : Nat) (m : Msg) (o : Nat × Msg)
+    (ho : o ∈ allOut env (handle cfg env n { (openOutboundStreams E (dialled x) ss 0).1.peer with key := key } m))
+    (ref : Ref) (p : Payload) (hpl : o.2 = .payload ref (some p)) :
+    ∃ tx, getTx n.dag ref = some tx ∧ readPayload n tx.payloadHash = some p ∧
+      (tx.pal ≠ [] →
+        (∃ dids, decryptPAL env n tx.pal = .pal dids ∧ x ∈ dids) ∧ x ≠ "" ∧
+        CertCovers E x (openOutboundStreams E (dialled x) ss 0).1.cert ∧
+        ∀ s ∈ (openOutboundStreams E (dialled x) ss 0).1.streams, CertCovers E x s.auth.cert) := by
+  obtain ⟨_, _, tx, h1, h2, h3⟩ := private_payload_release_sound cfg env n _ m o ho ref p hpl
+  refine ⟨tx, h1, h2, ?_⟩
+  intro hpal
+  obtain ⟨ha, dids, hd, hmem⟩ := h3 hpal
+  have hinv := outbound_connection_identity_is_dialled_and_proved E hk x ss
+  simp only at hinv
+  have ha' : (openOutboundStreams E (dialled x) ss 0).1.peer.authenticated = true := ha
+  have hmem' : (openOutboundStreams E (dialled x) ss 0).1.peer.did ∈ dids := hmem
+  rw [hinv.1] at hmem'
+  obtain ⟨hne, hcov⟩ := hinv.2.1 ha'
+  exact ⟨⟨dids, hd, hmem'⟩, hne, hcov, fun s hs => ((hinv.2.2 s hs).2.2.2 hne).2⟩
+
+theorem openOutboundStream_streams (E : InEnv) (c : Conn) (s : OutStream) :
+    (openOutboundStream E c s).1.streams = c.streams ∨ (openOutboundStream E c s).2 = .opened := by
+  have hreg : ∀ (c' : Conn) (r : StreamRec), (registerOut c' r).1.streams = c'.streams ∨ (registerOut c' r).2 = .opened := by
+    intro c' r
+    unfold registerOut
+    split
+    · exact Or.inl rfl
+    · exact Or.inr rfl
+  unfold openOutboundStream
+  split
+  · exact Or.inl rfl
+  split
+  · exact Or.inl rfl
+  split
+  · exact Or.inl rfl
+  split
+  · rename_i pid srv heq
+    obtain ⟨_, _, hst⟩ := verifyOrSetPeerID_same c pid
+    split
+    · exact Or.inl hst
+    · simp only []
+      split
+      · split
+        · exact Or.inl hst
+        split
+        · exact Or.inl hst
+        split
+        · exact Or.inl hst
+        · rcases hreg _ _ with h | h
+          · left; rw [h]; exact hst
+          · exact Or.inr h
+      · rcases hreg _ _ with h | h
+        · left; rw [h]; exact hst
+        · exact Or.inr h
+  · exact Or.inl rfl
+
+/-- a stream that is not opened (any refusal, fatal or not) adds no stream to the connection -/
+theorem unopened_outbound_stream_registers_nothing (E : InEnv) (c : Conn) (s : OutStream)
+    (h : (openOutboundStream E c s).2 ≠ .opened) : (openOutboundStream E c s).1.streams = c.streams := by
+  rcases openOutboundStream_streams E c s with h' | h'
+  · exact h'
+  · exact absurd h' h
+
+/-- every way out of the outbound set-up other than live streams leaves a reset connection: no streams, no DID, not
+    authenticated (the deferred `disconnect()` of `connect`) -/
+theorem failed_outbound_connection_is_reset (E : InEnv) (x : String) (ss : List OutStream)
+    (h : (connectOutbound E x ss).2 ≠ .blocked) :
+    (connectOutbound E x ss).1.streams = [] ∧ (connectOutbound E x ss).1.peer.did = "" ∧
+    (connectOutbound E x ss).1.peer.authenticated = false ∧ (connectOutbound E x ss).1.id = "" := by
+  unfold connectOutbound at h ⊢
+  split
+  · rename_i hb; simp [hb] at h
+  · simp [disconnect]
+
+
+/-- regenerated: `openOutboundStream` in source order — create, headers (no headers = the only non-fatal exit), metadata, peer ID,
+    the connection's peer with THIS stream's certificate, and — under "expected DID non-empty" only — server DID present, equal,
+    authenticated (each failure fatal); `setPeer` after all of them; `registerStream` last -/
+theorem fact_open_outbound_stream_flow :
+    Facts.C15.openOutboundStreamFlow = ["clientStream, err := protocol.CreateClientStream(outgoingContext, grpcConn)", "if err != nil",
+      ">return nil, fatalError{error: err}", "peerHeaders, err := clientStream.Header()", "if err != nil",
+      ">return nil, fatalError{error: fmt.Errorf(\"failed to read gRPC headers: %w\", err)}",
+      "if len(peerHeaders) == 0",
+      ">return nil, fmt.Errorf(\"peer didn't send any headers, maybe the protocol version is not supported\")",
+      "peerID, nodeDID, err := readMetadata(peerHeaders)", "if err != nil",
+      ">return nil, fatalError{error: fmt.Errorf(\"failed to read peer ID header: %w\", err)}",
+      "if !connection.verifyOrSetPeerID(peerID)",
+      ">return nil, fatalError{error: fmt.Errorf(\"peer sent invalid ID (id=%s)\", peerID)}",
+      "peer := connection.Peer()", "peer.Certificate = extractCertificate(peerFromCtx)", "if !peer.NodeDID.Empty()",
+      ">if nodeDID.Empty()", ">>return nil, fatalError{ErrNodeDIDAuthFailed}", ">if !peer.NodeDID.Equals(nodeDID)",
+      ">>return nil, fatalError{ErrUnexpectedNodeDID}", ">peer, err = s.authenticate(nodeDID, peer)",
+      ">if err != nil", ">>return nil, fatalError{err}", "connection.setPeer(peer)",
+      "if !connection.registerStream(protocol, wrappedStream)",
+      ">return nil, fatalError{error: ErrAlreadyConnected}", "return clientStream, nil"] := by decide
+
+/-- regenerated: the protocol loop gives up on a fatal error, moves on after a non-fatal one, counts opened streams and fails
+    when none was opened; `connect` registers the contact's peer as an outbound connection and ALWAYS disconnects + removes it
+    when it returns -/
+theorem fact_open_outbound_streams_loop_and_connect :
+    Facts.C15.openOutboundStreamsFlow = ["md, err := s.constructMetadata(connection.Peer().NodeDID.Empty())", "if err != nil", ">return err",
+      "protocolNum := 0", "range s.protocols",
+      ">clientStream, err := s.openOutboundStream(connection, protocol, grpcConn, md)", ">if err != nil",
+      ">>if errors.As(err, new(fatalError))", ">>>return err", ">>continue", ">protocolNum++", "if protocolNum == 0",
+      ">return fmt.Errorf(\"could not use any of the supported protocols to communicate with peer (id=%s)\", connection.Peer())",
+      "connection.waitUntilDisconnected()",
+      "if st := connection.closeError(); st != nil && st.Code() == codes.Unauthenticated", ">return st.Err()",
+      "return nil"] ∧
+    Facts.C15.connectFlow = ["connection, isNew := s.connections.getOrRegister(s.ctx, contact.peer, true)", "if !isNew", ">return", "defer",
+      ">connection.disconnect()", ">s.connections.remove(connection)",
+      "grpcClient, err := s.dialer(dialContext, contact.peer.Address, s.dialOptions...)", "if err != nil",
+      ">if isStatusError && errStatus.Code() == codes.Canceled", ">>return", ">return",
+      "err = s.openOutboundStreams(connection, grpcClient)", "if err != nil",
+      ">if errors.Is(err, ErrUnexpectedNodeDID)", "else"] := by decide
+
+/-- regenerated: `verifyOrSetPeerID` sets an empty ID and compares otherwise; `disconnect` drops the streams and resets peer ID,
+    node DID and the authenticated flag; `createConnection` stores the peer it is given -/
+theorem fact_connection_peer_updates :
+    Facts.C15.verifyOrSetPeerIDFlow = ["currentPeer := mc.Peer()", "if len(currentPeer.ID) == 0", ">currentPeer.ID = id", ">mc.setPeer(currentPeer)",
+      ">return true", "return currentPeer.ID == id"] ∧
+    Facts.C15.disconnectFlow = ["mc.streams = make(map[string]Stream)", "range mc.outboxes", "peer := mc.Peer()", "peer.ID = \"\"",
+      "peer.NodeDID = did.DID{}", "peer.Authenticated = false", "mc.setPeer(peer)"] ∧
+    Facts.C15.createConnectionFlow = ["result := &conn{streams: make(map[string]Stream), outboxes: make(map[string]chan interface{})}",
+      "result.setPeer(peer)", "return result"] ∧
+    Facts.C15.outboundConnectionLookups = ["ByAddress(peer.Address) & ByNodeDID(peer.NodeDID)", "ByNodeDID(peer.NodeDID)"] := by decide
+
+def exOut (pids dids : List String) (cert : Option (List String)) (proto : String) : OutStream :=
+  ⟨0, proto, false, false, pids, dids, false, cert⟩
+
+/-- non-vacuity: the dialled DID proved on two protocols; a lying server (other DID / wrong certificate / no DID) is fatal and the
+    connection is reset; a bootstrap connection opens unauthenticated whatever DID is announced -/
+example : (fun r : Conn × LoopRes => (r.1.peer.authenticated, r.1.peer.did, r.1.streams.length, r.2))
+    (connectOutbound exE "did:nuts:v" [exOut ["S"] ["did:nuts:v"] (some ["v.example"]) "p1", exOut ["S"] ["did:nuts:v"] (some ["v.example"]) "p2"])
+    = (true, "did:nuts:v", 2, .blocked) := by decide
+example : (fun r : Conn × LoopRes => (r.1.peer.authenticated, r.1.peer.did, r.1.streams.length, r.2))
+    (connectOutbound exE "did:nuts:v" [exOut ["S"] ["did:nuts:v"] (some ["v.example"]) "p1", exOut ["S"] ["did:nuts:v"] (some ["x.example"]) "p2"])
+    = (false, "", 0, .fatal "auth") := by decide
+example : ((connectOutbound exE "did:nuts:v" [exOut ["S"] ["did:nuts:w"] (some ["v.example"]) "p1"]).2,
+    (connectOutbound exE "did:nuts:v" [exOut ["S"] [] (some ["v.example"]) "p1"]).2,
+    (connectOutbound exE "did:nuts:v" [exOut ["S"] ["did:nuts:v"] (some ["v.example"]) "p1", exOut ["T"] ["did:nuts:v"] (some ["v.example"]) "p2"]).2)
+    = (.fatal "unexpected", .fatal "maintenance", .fatal "peerid") := by decide
+example : (fun r : Conn × LoopRes => (r.1.peer.authenticated, r.1.peer.did, r.1.streams.length, r.2))
+    (connectOutbound exE "" [exOut ["S"] ["did:nuts:v"] (some ["v.example"]) "p1"]) = (false, "", 1, .blocked) := by decide
+example : CertCovers exE "did:nuts:v" (some ["v.example"]) := ⟨["v.example"], "v.example", "v.example", rfl, rfl, rfl, by decide⟩
 
 end Nuts.C15.Props
